@@ -2,6 +2,7 @@ package svg
 
 import (
 	"fmt"
+	"math"
 	"net/url"
 	"strconv"
 	"strings"
@@ -65,6 +66,19 @@ type Value struct {
 	U Unit
 }
 
+// parseFloat reads a (finite, decimal) SVG number:
+// strconv.ParseFloat also accepts "NaN", "Inf" and hexadecimal floats.
+func parseFloat(s string) (float64, error) {
+	v, err := strconv.ParseFloat(s, 32)
+	if err != nil {
+		return v, err
+	}
+	if math.IsNaN(v) || math.IsInf(v, 0) || strings.ContainsAny(s, "xXpP_") {
+		return 0, fmt.Errorf("invalid number %s", s)
+	}
+	return v, nil
+}
+
 // look for an absolute unit, or nothing (considered as pixels)
 // % is also supported.
 // it returns an empty value when 's' is empty
@@ -85,7 +99,7 @@ func parseValue(s string) (Value, error) {
 			break
 		}
 	}
-	v, err := strconv.ParseFloat(s, 32)
+	v, err := parseFloat(s)
 	return Value{U: resolvedUnit, V: Fl(v)}, err
 }
 
@@ -161,7 +175,7 @@ func parsePoints(dataPoints string, points []Fl, isEllipticalArc bool) ([]Fl, er
 			isFlag := isEllipticalArc && (len(points)%7 == 3 || len(points)%7 == 4)
 
 			endNumber := consumeNumber(data, pos, isFlag)
-			value, err := strconv.ParseFloat(dataPoints[pos:endNumber], 32)
+			value, err := parseFloat(dataPoints[pos:endNumber])
 			if err != nil {
 				return nil, err
 			}
@@ -206,7 +220,7 @@ func parseOpacity(value string) (Fl, error) {
 		ratio = 100
 		value = strings.TrimSpace(value[:len(value)-1])
 	}
-	out, err := strconv.ParseFloat(value, 32)
+	out, err := parseFloat(value)
 	return Fl(out / ratio), err
 }
 
@@ -362,7 +376,7 @@ func parseOrientation(attr string) (Value, error) {
 	case "auto-start-reverse":
 		return Value{U: autoStartReverse}, nil
 	default:
-		f, err := strconv.ParseFloat(attr, 32)
+		f, err := parseFloat(attr)
 		return Value{V: Fl(f)}, err
 	}
 }
